@@ -13,7 +13,7 @@ Shapes == {"single", "up", "down"}
 Invs == {"none", "exact", "expanded"}
 
 Configs == {c \in [qcd : 1..4, qed : 0..2, method : Methods, sv : Svs, pol : BOOLEAN, tl : BOOLEAN,
-                   shape : Shapes, inv : Invs, emrun : BOOLEAN] :
+                   shape : Shapes, inv : Invs, emrun : BOOLEAN, top : BOOLEAN] :
               /\ (c.qed = 0 => ~c.emrun)
               /\ (c.shape # "down" => c.inv = "none")}
 
@@ -24,6 +24,9 @@ AdAvailable(c) ==                       \* anomalous dimensions at order c.qcd
   ELSE IF c.pol THEN c.qcd <= 3         \* polarized known through NNLO
   ELSE IF c.tl THEN c.qcd <= 3          \* time-like known through NNLO
   ELSE TRUE
+(* top: the path has a segment with six active flavours; the N3LO anomalous dimensions and *)
+(* matching elements are parametrised for nf = 3, 4, 5 only                                *)
+N3loNfOk(c) == ~(c.qcd = 4 /\ c.top)
 QedMethodOk(c) == c.qed > 0 => c.method = "iterate-exact"
 HasMatching(c) == c.shape # "single" /\ c.qcd >= 2
 (* matching elements: polarized through matching order 2; time-like beyond NLO is the   *)
@@ -36,12 +39,13 @@ Refuser(c) ==
   ELSE IF c.qed = 0 /\ c.pol /\ c.qcd = 4 THEN "Polarized beyond NNLO"
   ELSE IF c.qed = 0 /\ c.tl /\ c.qcd = 4 THEN "Time-like beyond NNLO"
   ELSE IF OmeRefused(c) THEN "Polarized, time-like"
+  ELSE IF ~N3loNfOk(c) THEN "nf=6 is not available at N3LO"
   ELSE "none"
 
 (* QED kernels are only defined for unpolarized space-like evolution; the code does not  *)
 (* look at the flags there.  The documentation is silent: either outcome is accepted,      *)
 (* a crash is not.                                                                         *)
-Unspecified(c) == c.qed > 0 /\ (c.pol \/ c.tl) /\ QedMethodOk(c) /\ ~OmeRefused(c)
+Unspecified(c) == c.qed > 0 /\ (c.pol \/ c.tl) /\ QedMethodOk(c) /\ ~OmeRefused(c) /\ N3loNfOk(c)
 
 Expected(c) == IF Unspecified(c) THEN "any"
                ELSE IF Refuser(c) # "none" THEN "refused" ELSE "finite"
@@ -49,7 +53,7 @@ Expected(c) == IF Unspecified(c) THEN "any"
 (* internal consistency of the table *)
 TableOk == \A c \in Configs :
   /\ (Expected(c) = "refused") = (Refuser(c) # "none" /\ ~Unspecified(c))
-  /\ (Expected(c) = "finite" => AdAvailable(c) /\ QedMethodOk(c))
+  /\ (Expected(c) = "finite" => AdAvailable(c) /\ QedMethodOk(c) /\ N3loNfOk(c))
   /\ (~AdAvailable(c) => Expected(c) = "refused")
 
 (* ---- C04 ---- *)
